@@ -61,14 +61,18 @@ def sym_pack(E, is64, name, value, size, info, other, shndx):
     return struct.pack(E + 'IIIBBH', name, value, size, info, other, shndx)
 
 
-def strtab(names):
+def strtab(names, share_suffixes=False):
     """names: iterable of bytes -> (table bytes, {name: offset}). Offset 0 is the empty string."""
     tab = bytearray(b'\0')
     offs = {b'': 0}
     for n in names:
         if n not in offs:
-            offs[n] = len(tab)
-            tab += n + b'\0'
+            k = bytes(tab).find(n + b'\0') if share_suffixes and n else -1
+            if k >= 0:
+                offs[n] = k          # the name is a suffix of a string already in the table
+            else:
+                offs[n] = len(tab)
+                tab += n + b'\0'
     return bytes(tab), offs
 
 
@@ -102,7 +106,7 @@ def build(cls=64, le=True, machine=62, etype=1, osabi=0, abiversion=0, entry=0, 
             secs.append(shstr)
         else:
             secs.insert(max(1, min(shstr_at, len(secs))), shstr)
-        tab, offs = strtab([s.nbytes() for s in secs])
+        tab, offs = strtab([s.nbytes() for s in secs], share_suffixes=True)
         shstr.data = tab
         for s in secs:
             s.name_off = offs[s.nbytes()]
